@@ -67,3 +67,23 @@ Proof. induction h as [|[s b] h IH]; intro p; [reflexivity|]. unfold analog_hist
 Theorem analog_history_independent h s noisy p :
   snd (run_analog s noisy (analog_history h p)) = snd (run_analog s noisy p).
 Proof. unfold run_analog. cbn [snd]. rewrite analog_history_num_traj. reflexivity. Qed.
+
+(* ---------- refused runs leave the object alone; histories with refusals are as harmless as histories without ---------- *)
+Lemma attempt_weak_shots noisy gs p : shots (fst (attempt_weak noisy gs p)) = shots p.
+Proof. unfold attempt_weak. destruct (noisy && gs)%bool; reflexivity. Qed.
+Lemma weak_attempts_shots h : forall p, shots (weak_attempts h p) = shots p.
+Proof. unfold weak_attempts. induction h as [|x h IH]; intros p; [reflexivity|]. cbn [fold_left]. rewrite IH. apply attempt_weak_shots. Qed.
+Lemma attempt_strong_num_traj noisy gs p : num_traj (fst (attempt_strong noisy gs p)) = num_traj p.
+Proof. unfold attempt_strong. destruct (noisy && gs)%bool; reflexivity. Qed.
+Lemma strong_attempts_num_traj h : forall p, num_traj (strong_attempts h p) = num_traj p.
+Proof. unfold strong_attempts. induction h as [|x h IH]; intros p; [reflexivity|]. cbn [fold_left]. rewrite IH. apply attempt_strong_num_traj. Qed.
+Theorem refused_run_leaves_object p q : fst (attempt_weak true true p) = p /\ fst (attempt_strong true true q) = q.
+Proof. split; reflexivity. Qed.
+(* run_weak depends on the object only through shots, run_strong only through num_traj *)
+Lemma run_weak_depends_on_shots noisy p q : shots p = shots q -> run_weak noisy p = run_weak noisy q.
+Proof. unfold run_weak. intros ->. reflexivity. Qed.
+Lemma run_strong_depends_on_num_traj noisy p q : num_traj p = num_traj q -> run_strong noisy p = run_strong noisy q.
+Proof. unfold run_strong. intros ->. reflexivity. Qed.
+Theorem attempts_history_independent h noisy p q :
+  run_weak noisy (weak_attempts h p) = run_weak noisy p /\ run_strong noisy (strong_attempts h q) = run_strong noisy q.
+Proof. split; [apply run_weak_depends_on_shots, weak_attempts_shots|apply run_strong_depends_on_num_traj, strong_attempts_num_traj]. Qed.
